@@ -437,7 +437,7 @@ def main(ck):
         for m in res.mismatches:
             f, shp, path, cstext = index[m['case']['x']]
             if cfg == 'noallowkw' and f.sig.meth_o_or_noargs() and shp.has_keywords() \
-                    and m['got'][:2] == ['exc', 'TypeError'] and f.kind not in ('init', 'cinit', 'call', 'ccall', 'inner'):
+                    and m['got'][:2] == ['exc', 'TypeError'] and f.kind not in ('init', 'cinit', 'call', 'ccall'):
                 doc_expect += 1      # documented: METH_O / METH_NOARGS functions reject keywords
                 continue
             key = classify(f, shp, path, m['exp'], m['got'], cfg)
